@@ -526,6 +526,14 @@ def run(ctx: Any, prog: Program) -> None:
             ctx.check('C12.W5', ok, bsp, n, f'`{U(n)[:60]}` writes to `{recv}`, which is not the AtomicWriter handle (or an in-memory buffer)', func='BSP.save', text=f'write via {recv}')
         if isinstance(n, ast.Call) and _is_open(n) and not any(n is c for c in cands):
             ctx.check('C12.W5', False, bsp, n, 'BSP.save opens a file itself; all output must go through AtomicWriter', func='BSP.save', text='open in save')
+    # BSP.save touches the file system through the writer only: a rename / removal of the destination (a backup "moved aside first") empties the
+    # destination path before the new contents exist - from then until the writer's final replace() it holds neither old nor new data
+    for n in ast.walk(save):
+        if isinstance(n, ast.Call) and isinstance(n.func, ast.Attribute) and n.func.attr in ('replace', 'rename', 'renames', 'remove', 'unlink', 'rmtree', 'move', 'truncate', 'rmdir') \
+                and (isinstance(n.func.value, ast.Name) and n.func.value.id.lstrip('_') in ('os', 'shutil') or (n.func.attr in ('unlink', 'rename', 'rmdir') and not n.args) or (n.func.attr == 'replace' and len(n.args) == 1 and not isinstance(n.args[0], ast.Constant)
+                                                                                                                                                             and isinstance(n.func.value, (ast.Call, ast.Name)) and 'path' in U(n.func.value).lower())):
+            ctx.check('C12.W5', False, bsp, n, f'BSP.save calls `{U(n)[:60]}` itself: moving or removing files around the destination outside the atomic writer leaves the destination path without its previous contents '
+                      'until (and unless) the new file is committed', func='BSP.save', text='save() renames / removes nothing itself')
     # DeferredWrites writes through the file object it was given
     dw = prog.module('binformat')
     for name, fn in dw.methods('DeferredWrites').items():
@@ -584,6 +592,7 @@ def run(ctx: Any, prog: Program) -> None:
 
 
 MUTANTS = [
+    {'id': 'save_moves_old_file_aside', 'file': 'bsp.py', 'find': "        with AtomicWriter(filename or self.filename, is_bytes=True) as file:", 'replace': "        if os.path.isfile(filename or self.filename):\n            os.replace(filename or self.filename, str(filename or self.filename) + '.bak')\n        with AtomicWriter(filename or self.filename, is_bytes=True) as file:", 'expect': 'C12.W5', 'note': 'round 13'},
     {'id': 'exit_removes_created_folder', 'file': '__init__.py', 'find': "                try:\n                    self._temp_name.unlink()\n                except OSError:\n                    pass\n\n        return None  # Don't cancel the exception.", 'replace': "                try:\n                    self._temp_name.unlink()\n                    self.filename.parent.rmdir()\n                except OSError:\n                    pass\n\n        return None  # Don't cancel the exception.", 'expect': 'C12.W9', 'note': 'round 11'},
     {'id': 'save_makes_tempfile_early', 'file': 'bsp.py', 'find': "        with AtomicWriter(filename or self.filename, is_bytes=True) as file:", 'replace': "        writer = AtomicWriter(filename or self.filename, is_bytes=True)\n        writer.make_tempfile()\n        game_lumps = list(self.game_lumps.values())\n        with writer as file:", 'expect': 'C12.W10', 'note': 'round 11'},
     {'id': 'save_returns_inside_the_with_block', 'file': 'bsp.py', 'find': "            if self.version is None:\n                raise ValueError('No version specified for BSP!')", 'replace': "            if self.version is None:\n                return", 'expect': 'C12.W8'},
